@@ -92,14 +92,19 @@ def kbase(pid):
     return 10 * int(pid[1:]) + 10
 
 
-def mc_generate(family, turns, params, sample_mod, sample_key, name, max_edges=None, timeout=3000):
-    """Exhaustive TLC run of the ideal model: monitors as invariant, every edge printed with its input path."""
+def mc_generate(family, turns, params, sample_mod, sample_key, name, max_edges=None, timeout=3000, simulate=None):
+    """Exhaustive TLC run of the ideal model: monitors as invariant, every edge printed with its input path.
+    simulate=(num, seed): random walks of exactly `turns` turns instead (tlc -simulate), each printed as one path."""
     d = vlib.stage_spec(L1_MODULES, "mc-" + name)
-    cfg = MC_COMMON + MC_CFG[family] % params + "  MaxTurns = %d\n  SampleMod = %d\n  SampleKey = %d\nACTION_CONSTRAINT Emit\n" % (
-        turns, sample_mod, sample_key)
+    cfg = MC_COMMON + MC_CFG[family] % params + "  MaxTurns = %d\n  SampleMod = %d\n  SampleKey = %d\n  EmitAt = %d\nACTION_CONSTRAINT Emit\n" % (
+        turns, sample_mod, sample_key, turns if simulate else 0)
     with open(os.path.join(d, "MC.cfg"), "w") as fh:
         fh.write(cfg)
-    cmd = ["tlc", "-workers", str(vlib.NCPU), "-metadir", os.path.join(d, "md"), "-config", "MC.cfg", "MC_Upf.tla"]
+    if simulate:
+        cmd = ["tlc", "-workers", "4", "-simulate", "num=%d" % max(1, simulate[0] // 4), "-depth", str(turns + 2), "-seed", str(simulate[1]),
+               "-metadir", os.path.join(d, "md"), "-config", "MC.cfg", "MC_Upf.tla"]
+    else:
+        cmd = ["tlc", "-workers", str(vlib.NCPU), "-metadir", os.path.join(d, "md"), "-config", "MC.cfg", "MC_Upf.tla"]
     t0 = time.time()
     edges = []
     tail = []
@@ -116,6 +121,9 @@ def mc_generate(family, turns, params, sample_mod, sample_key, name, max_edges=N
                         edges.append(json.loads(json.loads('"' + m.group(1) + '"')))
                     except ValueError:
                         pass
+                if simulate and nedges >= simulate[0]:
+                    p.kill()      # enough walks
+                    break
                 continue
             tail.append(ln)
             if len(tail) > 400:
@@ -129,6 +137,13 @@ def mc_generate(family, turns, params, sample_mod, sample_key, name, max_edges=N
             p.kill()
     out = "\n".join(tail)
     m = re.search(r"(\d+) states generated, (\d+) distinct states found", out)
+    if simulate:
+        # simulation mode reports differently (and is ended by us); an invariant violation still says "Error:"
+        if "is violated" in out or "Error: The" in out:
+            raise Infra("simulation of the ideal model failed (%s, %d turns):\n%s" % (family, turns, out[-3500:]))
+        ms = re.search(r"(\d+) states checked", out)
+        return {"family": family, "turns": turns, "generated": int(ms.group(1)) if ms else nedges * turns, "distinct": 0,
+                "edges_printed": nedges, "edges": edges, "wall": time.time() - t0, "cfg": cfg}
     if p.returncode != 0 or "No error has been found" not in out or not m:
         # a step of the IDEAL MODEL rejected by a monitor (or a TLC error) is a defect of the specification,
         # not of the code: infrastructure
@@ -147,7 +162,7 @@ def edges_to_scripts(edges, maxrt, txseq0, prefix):
 
 def execute_and_judge(binary, scripts, k0, name, nproc=None, lockstep=True):
     """run scripts on the real server, validate the recorded traces with TLC; returns (violations, stats)"""
-    nproc = nproc or min(vlib.NCPU, 12)
+    nproc = nproc or min(vlib.NCPU, 10)      # every property owns ten loopback networks (kbase)
     nproc = max(1, min(nproc, len(scripts)))
     # chunks of at most ~1500 scripts (bounded trace files, bounded TLC memory), processed by a pool of nproc workers
     nchunks = max(nproc, -(-len(scripts) // 1500))
@@ -306,6 +321,18 @@ def check_l1(pid, replay=None):
     txseq0 = params["txseq0"] if family == "RxTx" else 0
     scripts = edges_to_scripts(edges, maxrt, txseq0, "mc-" + family)
 
+    # ---- 1b. random walks of the ideal model far beyond the exhaustive bound (tlc -simulate): monitors checked along
+    #          every walk, every walk replayed on the real server
+    wturns, wnum = (12, 6000) if thorough else (10, 400)
+    cfg_backup = MC_CFG[family]
+    try:
+        MC_CFG[family] = MC_CFG[family].replace('Kinds = {', 'Kinds = {"simbias", ', 1)
+        walks = mc_generate(family, wturns, params, 1, 0, pid + "-w", simulate=(wnum, seed))
+    finally:
+        MC_CFG[family] = cfg_backup
+    log("MC %s random walks: %d walks of %d turns (monitors hold along all of them) in %.0fs" % (family, len(walks["edges"]), wturns, walks["wall"]))
+    scripts += edges_to_scripts(walks["edges"], maxrt, txseq0, "walk-" + family)
+
     # ---- 2. seeded random histories beyond the bounds of the model
     nrand = 6000 if thorough else 400
     rnd = []
@@ -330,11 +357,12 @@ def check_l1(pid, replay=None):
         "traces_validated_against_impl": s1["traces"] + s2["traces"],
         "samples": [brief(scripts[0]) if scripts else [], brief(scripts[-1]) if scripts else [], brief(rnd[0])[:12]],
         "mc_family": family, "mc_turns": turns, "mc_constants": mc["cfg"],
-        "edges_total": mc["edges_printed"], "edges_replayed": len(scripts),
+        "edges_total": mc["edges_printed"], "edges_replayed": len(scripts) - len(walks["edges"]),
+        "simulation_walks": len(walks["edges"]), "simulation_walk_turns": wturns, "simulation_states_checked": walks["generated"],
         "random_histories": len(rnd), "events_executed_on_impl": s1["events"] + s2["events"],
         "lockstep_steps_compared_with_ideal_model": s1["lockstep_compared"] + s2["lockstep_compared"],
         "lockstep_divergences": s1["lockstep_divergences"] + s2["lockstep_divergences"],
-        "exhaustive": len(scripts) == mc["edges_printed"] and smod == 1,
+        "exhaustive": len(scripts) - len(walks["edges"]) == mc["edges_printed"] and smod == 1,
         "edge_sample": "1/%d of the edges, chosen inside TLC by a hash of the path" % smod,
         "checker_cmd": "tlc MC_Upf.tla (INVARIANT NoVerdict, ACTION_CONSTRAINT Emit); tlc Trace_Upf.tla per recorded chunk",
         "verdicts_of_other_properties": others,
@@ -1082,7 +1110,7 @@ def l2_script(sid, hist):
 
 
 def execute_and_judge_l2(binary, scripts, k0, name, nproc=None):
-    nproc = max(1, min(nproc or 12, len(scripts)))
+    nproc = max(1, min(nproc or 10, len(scripts)))
     chunks = [scripts[i::nproc] for i in range(nproc)]
     byid = {s["id"]: s for s in scripts}
 
@@ -1192,7 +1220,7 @@ def check_c10_full(pid, replay=None):
         return _check_l1_c10(pid, replay)
     rc = _check_l1_c10(pid, None)
     thorough = vlib.tier() == "thorough"
-    mc, scripts, rnd, viols, st = l2_part(pid, "Perio", 6 if thorough else 5, "periodic", 2000 if thorough else 200, 1200 if thorough else 60, kofs=5)
+    mc, scripts, rnd, viols, st = l2_part(pid, "Perio", 6 if thorough else 5, "periodic", 2000 if thorough else 200, 1200 if thorough else 60)
     n = report_violations(pid, viols, st["crashes"], "L2 family Perio")
     if st["crashes"] and not n:
         raise Infra("L2 executor died: %s" % st["crashes"][0]["tail"][-1500:])
@@ -1211,6 +1239,46 @@ def check_c10_full(pid, replay=None):
 
 
 REGISTRY["C10"] = check_c10_full
+
+_check_l1_c01 = REGISTRY["C01"]
+
+
+def check_c01_full(pid, replay=None):
+    """PFCP level with the recording data plane (L1) + the same statement at the kernel boundary (L2): the rule tables of
+    the simulated gtp5g module after every step against the rules live sessions have requested (MonL2!VKernel)"""
+    if replay:
+        with open(replay) as fh:
+            doc = json.load(fh)
+        if doc.get("note", "").startswith("L2"):
+            L2_PLAN["C01"] = L2_PLAN["C15"]
+            return check_l2(pid, replay)
+        return _check_l1_c01(pid, replay)
+    rc = _check_l1_c01(pid, None)
+    thorough = vlib.tier() == "thorough"
+    n, add = 0, {"l2_states": 0, "l2_transitions": 0, "l2_traces_validated_against_impl": 0, "l2_events_executed_on_impl": 0}
+    for family, turns, gen in (("Perio", 6 if thorough else 5, "periodic"), ("Buffer", 5 if thorough else 4, "buffering")):
+        mc, scripts, rnd, viols, st = l2_part(pid, family, turns, gen, 1500 if thorough else 150, 800 if thorough else 40)
+        k = report_violations(pid, viols, st["crashes"], "L2 family %s" % family)
+        if st["crashes"] and not k:
+            raise Infra("L2 executor died: %s" % st["crashes"][0]["tail"][-1500:])
+        n += k
+        add["l2_states"] += mc["distinct"]
+        add["l2_transitions"] += mc["generated"]
+        add["l2_traces_validated_against_impl"] += st["traces"]
+        add["l2_events_executed_on_impl"] += st["events"]
+    p = os.path.join(vlib.VERIF, "evidence", pid + ".json")
+    with open(p) as fh:
+        ev = json.load(fh)
+    ev["coverage"].update(add)
+    ev["coverage"]["traces_validated_against_impl"] += add["l2_traces_validated_against_impl"]
+    ev["coverage"]["l2_monitor"] = "MonL2!VKernel: kernel rule tables after every step = rules requested by live sessions"
+    ev["violations"] = ev.get("violations", 0) + n
+    with open(p, "w") as fh:
+        json.dump(ev, fh, indent=1)
+    return 1 if (rc or n) else 0
+
+
+REGISTRY["C01"] = check_c01_full
 
 
 # ============================================================================================== C07 robustness
